@@ -134,6 +134,16 @@ Definition dispatch (op : string) (args : list tree) : tree :=
                    else t_out (fun l => of_strs (firstn (str_to_nat n) l)) (find_list Ld it q)
       | None => bad end
   | "fields_mutate", [s; L _; L _] => with_sid s (fun x => N [L "ok"; N [t_sid x; t_sid x; t_bool true; t_bool true]])
+  | "sid_multi", [L s; L q; d] =>
+      match t_pairs d with
+      | Some d =>
+          let src := if negb (sempty s) then FromString s else if negb (sempty q) then FromQuery q else FromFields d in
+          t_out (fun x => N [t_sid x; t_bool true]) (sid_factory Ld src)
+      | None => bad end
+  | "fields_arg_mutate", [d; L _; L _] =>
+      match t_pairs d with
+      | Some d => t_out (fun x => N [t_sid x; t_bool true]) (sid_factory Ld (FromFields d))
+      | None => bad end
   | "eq_hash", [a; b] => with_sid a (fun x => with_sid b (fun y =>
       N [L "ok"; N [t_bool (sid_eqb x y); t_bool (String.eqb (repr x) (repr y)); t_bool (sid_eqb x y);
                     t_bool (sid_eq_str x (s_string y)); t_bool (sid_eqb x y)]]))
